@@ -7,6 +7,7 @@ import (
 	"net/http"
 	"strings"
 	"testing"
+	"unicode/utf8"
 
 	"github.com/AdguardTeam/urlfilter/proxy"
 	"pgregory.net/rapid"
@@ -189,6 +190,15 @@ func c20Filler(t *rapid.T, n int, kind int) []byte {
 			}
 			out[i] = b
 		}
+	case 4: // well-formed UTF-8 with non-ASCII characters (2-, 3- and 4-byte sequences)
+		const txt = "é日ÿ\u0080ü𝄞 "
+		for i := range out {
+			out[i] = txt[i%len(txt)]
+		}
+		// cut back to a character boundary so that the filler itself stays valid UTF-8
+		for len(out) > 0 && !utf8.Valid(out) {
+			out = out[:len(out)-1]
+		}
 	case 3: // mixed, with a run of high bytes of generated length at the front
 		k := rapid.IntRange(0, n).Draw(t, "high-run")
 		for i := range out {
@@ -219,7 +229,7 @@ func genC20(t *rapid.T) c20Case {
 		default:
 			n = rapid.IntRange(0, 2000).Draw(t, "medium")
 		}
-		body = append(body, c20Filler(t, n, rapid.IntRange(0, 3).Draw(t, "filler"))...)
+		body = append(body, c20Filler(t, n, rapid.IntRange(0, 4).Draw(t, "filler"))...)
 		if s < nseg {
 			m := pick(t, "marker", []string{"</head", "<link", "<style", "<script", "</HEAD>", "<LiNk rel=x>", "<Style>", "<SCRIPT src=a>",
 				"</hea", "<lin", "<styl", "<scrip", "< link", "<\x00link", "</head</head", "<sCRIPT"})
